@@ -511,8 +511,10 @@ func hookPass(res *vkit.Result) {
 		fail := func(check, f string, a ...any) {
 			res.Violate("C18/config-hook/"+check, fmt.Sprintf(f, a...), c)
 		}
+		// the key that selects the plugin is matched whatever its letter case
+		typeKey := []string{"type", "Type", "TYPE", "tYpE"}[(i/2)%4]
 		user := func() map[string]any {
-			return map[string]any{"type": name, "b": 42, "m": map[string]any{"u": 2}}
+			return map[string]any{typeKey: name, "b": 42, "m": map[string]any{"u": 2}}
 		}
 		var h holder
 		err := config.Decode(map[string]any{"c": user(), "f": user(), "f2": user()}, &h)
